@@ -16,3 +16,21 @@ GROUPS = [
     hg('walk_clear', 'h_walk_clear', ['qhashtbl_getnext', 'qhashtbl_clear']),
     hg('ctor', 'h_ctor', ['qhashtbl', 'qhashtbl_free'], inst=[dict(HR=r, HN=0) for r in (1, 3)]),
 ]
+
+
+def c13(groups):
+    """C13 overlay on put / get / remove: tables with <= 2 entries"""
+    out = []
+    for g in groups:
+        if g['name'] not in ('hashtbl_put', 'hashtbl_get_remove'):
+            continue
+        h = dict(g)
+        h['name'] = g['name'].replace('hashtbl_', 'hashtbl_c13_')
+        h['props'] = ['C13']
+        h['defines'] = list(g.get('defines', [])) + ['-DQV_C13']
+        h['instances'] = [dict(i) for i in g['instances'] if i.get('tier') != 'thorough']
+        out.append(h)
+    return out
+
+
+GROUPS = GROUPS + c13(GROUPS)
